@@ -493,10 +493,13 @@ def do_replay(path):
         env = dict(os.environ)
         if v.get("godebug"):
             env["GODEBUG"] = v["godebug"]
-        rc, out, _ = run([os.path.join(BUILD, "bin", "harness"), "-replay", case], env=env, timeout=60)
+        binary = os.path.join(BUILD, "bin", "harness")
+        if v.get("goarch") == "386":
+            binary = vlib.build_variant("386", {"GOARCH": "386"})
+        rc, out, _ = run([binary, "-replay", case], env=env, timeout=60)
         m = vlib.model_on([case, "x." + case[2:]])
-        print("kernel (GODEBUG=%s): %s | scalar definition (extracted Spec)=%s | x86 machine model on the translated assembly: %s"
-              % (v.get("godebug", ""), out.strip(), m[0].get("S"), m[1].get("I")))
+        print("kernel (GOARCH=%s GODEBUG=%s): %s | scalar definition (extracted Spec)=%s | x86 machine model on the translated assembly: %s"
+              % (v.get("goarch", "amd64"), v.get("godebug", ""), out.strip(), m[0].get("S"), m[1].get("I")))
     return 0
 
 
